@@ -77,7 +77,7 @@ _SHELL_UNUSED = ('complete-shell (ConeCyl) kernels are not encoded: the 47 conec
           'cannot execute; nothing about this property is decided, so nothing is claimed (DESIGN.md section 9.2)')
 CHECKS['C18'] = (OTHER, 'symbolic execution of the real ConeCyl object (_rebuild, exclude_dofs_matrix, calc_full_c, calc_fext, uvw) over de-Cythonised clpt commons kernels with trigonometric values as solver-canonicalised atoms; z3 qfnra-nlsat per entry; exact-rational replay',
     'Bounded symbolic verification for the classical Donnell shell models bc1-bc4: derived geometry consistent and idempotent for every admissible input pair (cone and cylinder), partition/re-insertion of prescribed amplitudes is the identity for every admitted subset, calc_full_c inverts it for any load factor, load vector of point forces / torque / axial force = virtual work against the package own uvw, prescribed-displacement right-hand-side terms.',
-    'Pressure and harmonic edge-load closed forms, Sanders/FSDT/iso models and the reduced solve are outside (stated in evidence); trig atoms per argument class with S^2+C^2=1.',
+    'Uniform pressure and harmonic axial edge loads are decided by exact integration (vf/trigpoly.py); Sanders/FSDT/iso models and the reduced solve are outside (stated in evidence); trig atoms per argument class with S^2+C^2=1.',
     'DESIGN.md section 9.2 / 4 C18')
 CHECKS['C16'] = (OTHER, 'symbolic execution from source of the *_linear.pyx kernels of 13 shell models and of the real ConeCyl._calc_linear_matrices (pi symbolic, trigonometric arguments canonicalised by the solver) ; relational identities per entry with z3 qfnra-nlsat; exact-rational replay plus an independent float replay on the compiled kernels',
     'Bounded symbolic verification of the relational clauses: cone at zero angle = cylinder kernels (k0, kG0), kG0 split/homogeneity in (Fc,P,T), isotropic short-cuts = general models, written lower-triangle entries = mirror, laminate matrix independent of the number of evaluations, and the elastic edge-restraint part of k0 (through the real _calc_linear_matrices -> get_linear_matrices -> fk0edges with symbolic restraint values) = Hessian of the edge-spring energy of the package own displacement field (exact 4-node circumferential rule, n2 = 1); and (vi) the shell part of k0 = Hessian of the strain energy of the package own linear strain field (cfstrain_* executed on exact trigonometric-polynomial values, integration over the surface in closed form; for cones with the radius frozen at the middle of each of the s meridional sections, which is the kernels own definition), (vii) one ConeCyl object re-defined between two evaluations = a fresh object; PSD is NOT decided (listed as outside).',
